@@ -111,7 +111,9 @@ def _invoke(md, api, doc, env):
         try:
             os.write(fd, doc)
             os.close(fd)
-            with contextlib.redirect_stdout(io.StringIO()):
+            # standard output as the command really has it: a UTF-8 text stream (a str that cannot be encoded
+            # makes print() raise)
+            with contextlib.redirect_stdout(io.TextIOWrapper(io.BytesIO(), encoding="utf-8", errors="strict")):
                 cli.main([path])
         finally:
             os.unlink(path)
